@@ -98,6 +98,20 @@ class StaticWalk:
             label = f'{url} rep {rep.id}'
             if rep.segment_list is not None:
                 self.walk_ranges(rep, sf, key, label, rp)
+                if rep.timeline is not None:
+                    # on-demand profile: the timeline that accompanies the byte ranges describes
+                    # the same stored segments, one entry each
+                    res.count('odvod.timelines_compared')
+                    stored = [s.duration for s in sf.segments]
+                    listed = [e.d for e in rep.timeline]
+                    if len(listed) != len(stored):
+                        res.violation('on-demand-timeline-entry-count-differs-from-stored',
+                                      f'{label}: SegmentTimeline lists {len(listed)} entries, the file holds '
+                                      f'{len(stored)} segments', rp)
+                    elif listed != stored:
+                        i = next(i for i, (a, b) in enumerate(zip(listed, stored)) if a != b)
+                        res.violation('on-demand-timeline-entry-duration-differs-from-stored',
+                                      f'{label}: S[{i}]@d={listed[i]}, stored segment lasts {stored[i]}', rp)
             elif rep.timeline is not None:
                 self.walk_timeline(rep, sf, key, label, rp, ref)
             elif rep.duration is not None and pd is not None:
